@@ -112,10 +112,26 @@ func Presentations(n int, seed int64) []Presentation {
 	single := []Presentation{{Name: "permute-cols", PermuteCols: true}, {Name: "extra-cols", ExtraCols: 2}, {Name: "extra-files", ExtraFiles: true},
 		{Name: "shuffle-members", ShuffleFiles: true}, {Name: "store", Store: true}, {Name: "bom", BOM: true}, {Name: "crlf", CRLF: true},
 		{Name: "no-final-eol", NoFinalEOL: true}, {Name: "quote-all", QuoteAll: true}}
+	// every pair of features (e.g. a BOM in front of a quoted header cell, CRLF with no final line end)
+	var pairs []Presentation
+	for a := 0; a < len(single); a++ {
+		for b := a + 1; b < len(single); b++ {
+			x, y := single[a], single[b]
+			pairs = append(pairs, Presentation{Name: x.Name + "+" + y.Name, PermuteCols: x.PermuteCols || y.PermuteCols, ExtraCols: x.ExtraCols + y.ExtraCols,
+				ExtraFiles: x.ExtraFiles || y.ExtraFiles, ShuffleFiles: x.ShuffleFiles || y.ShuffleFiles, Store: x.Store || y.Store, BOM: x.BOM || y.BOM,
+				CRLF: x.CRLF || y.CRLF, NoFinalEOL: x.NoFinalEOL || y.NoFinalEOL, QuoteAll: x.QuoteAll || y.QuoteAll})
+		}
+	}
 	r := rand.New(rand.NewSource(seed))
 	for i := 0; i < n; i++ {
 		if i < len(single) {
 			p := single[i]
+			p.Seed = seed + int64(i)
+			out = append(out, p)
+			continue
+		}
+		if n > 2*len(single) && i-len(single) < len(pairs) {
+			p := pairs[i-len(single)]
 			p.Seed = seed + int64(i)
 			out = append(out, p)
 			continue
